@@ -67,6 +67,18 @@ impl<'a> ProjectionStrategy for SelectionProjection<'a> {
                     set.add(order.field.clone());
                 }
             }
+            // SINCE is evaluated on the USING time field of every loaded row; with a WHERE
+            // clause it is not among the filter columns, so load it even when RETURN omits it
+            if let Command::Query {
+                since: Some(_),
+                time_field: Some(time_field),
+                ..
+            } = &self.plan.command
+            {
+                if payload_set.contains(time_field) {
+                    set.add(time_field.clone());
+                }
+            }
         }
 
         set.add("event_id");
